@@ -16,6 +16,7 @@ func propC10(r *Report, tier string) {
 	ruleVisitTypestate(r, "K1-startdoc-visit-enddoc")
 	ruleFacetBuilderSiblings(r, "K12-facet-builder-protocol")
 	ruleVisitorForwardsBoth(r, "K5-visitor-forwards-both")
+	rulePerSegmentFieldsInvalidatedOnSwitch(r, "K5-per-segment-fields-invalidated")
 	ruleLookupMissSkipsOnlyTheItem(r, "K13-lookup-miss-skips-only-the-item", "index/scorch", "search/facet", "search/collector", "search")
 	ruleRegistriesUpdatedTogether(r, "K14-registries-updated-together", "search.(*FacetsBuilder).Add", "FacetsBuilder", []string{"facetNames", "facets", "facetsByField"})
 	r.Floor("K5-prepare-before-store", 3)
